@@ -45,7 +45,7 @@ type gen struct {
 	// same statement unspecified (gc calls first): a statement has calls or
 	// operations that may panic, never both.
 	stCall, stRisky bool
-	linear  int // >0: string expressions mention at most one string variable or call (a stored string grows by a constant)
+	linear          int // >0: string expressions mention at most one string variable or call (a stored string grows by a constant)
 }
 
 var intTys = []Ty{tInt, tInt8, tInt16, tInt32, tInt64, tUint, tUint8, tUint16, tUint32, tUint64, tUintptr}
